@@ -52,8 +52,12 @@ class C06(hc.PProp):
                 t['total'] = t['size']
                 return t
             tn = {'id': index * 10 + i, 'c': side(), 's': side(), 'early': rng.random() < 0.3,
-                  'end': rng.choice(['client_fin', 'client_fin', 'server_fin', 'server_fin', 'client_close', 'server_close', 'client_rst', 'server_rst', 'both_fin']),
+                  'end': rng.choice(['client_fin', 'client_fin', 'server_fin', 'server_fin', 'client_close', 'server_close', 'client_rst', 'server_rst', 'both_fin', 'late_client_data']),
                   'http10': rng.random() < 0.2, 'start': rng.choice([0, 0, 3000])}
+            if tn['end'] == 'late_client_data':
+                # a non-reading client, a server that sends more than squid can buffer and closes, then client data towards the closed server
+                tn['s']['total'] = rng.choice([150000, 400000, 1000000]); tn['s']['seg'] = 'rand'; tn['s']['pace'] = 0; tn['s']['gap'] = 0; tn['s']['bursts'] = 1; tn['s']['window'] = 2000000
+                tn['c']['window'] = rng.choice([2048, 8192, 16384]); tn['c']['total'] = 128; tn['c']['bursts'] = rng.choice([2, 3, 4]); tn['c']['readpace'] = None; tn['early'] = False
             tunnels.append(tn)
         plan['tunnels'] = tunnels
         plan['_lists'] = ['tunnels']
@@ -90,7 +94,9 @@ class C06(hc.PProp):
                 if tn['s']['gap']:
                     a.add('wait %d' % tn['s']['gap'])
             e = tn['end']
-            if e in ('server_fin', 'both_fin'):
+            if e == 'late_client_data':
+                a.add('close')
+            elif e in ('server_fin', 'both_fin'):
                 a.add('shutdown'); a.add('expect eof timeout 90000000')
             elif e == 'server_close':
                 a.add('close')
@@ -111,6 +117,12 @@ class C06(hc.PProp):
             else:
                 cl.add('send %s seg whole' % tok(head))
             cl.add('expect head timeout 60000000')
+            if e == 'late_client_data':
+                cl.add('readstop'); cl.add('wait %d' % rng.choice([300000, 1000000, 3000000]))
+                for b in bs:
+                    cl.add('send %s seg whole' % b.token()); cl.add('wait %d' % rng.choice([20000, 200000]))
+                cl.add('readresume'); cl.add('expect eof timeout 90000000')
+                continue
             for b in bs:
                 cl.add('send %s%s' % (b.token(), segc))
                 if tn['c']['gap']:
@@ -170,27 +182,32 @@ class C06(hc.PProp):
                 V.append(Violation('C06:client-to-server-altered', 'tunnel %s: server received bytes that are not a prefix of what the client sent: %s' % (port, hc.diff_desc(server_got, client_sent))))
             if got_from_server and server_got:
                 nontrivial += 1
-            # --- the first side whose orderly FIN squid read is promised full delivery, unless the receiver itself went away first
+            # --- a side that ends with an orderly FIN after sending N bytes is promised that the other side receives all N bytes before it is closed,
+            #     provided the other side was still fully open (had sent neither FIN nor RST nor closed) when it got its EOF; squid does not support
+            #     half-closed tunnels, so a side that itself closed first is promised nothing about the bytes still coming its way
             def ev(c, kinds):
                 for x in c.events:
                     if x[2] in kinds:
                         return x
                 return None
-            c_eof = ev(cv.conn, ('SQRD_EOF',)); s_eof = ev(sc, ('SQRD_EOF',))
-            c_abort = ev(cv.conn, ('PRSTSND', 'PCLOSE')); s_abort = ev(sc, ('PRSTSND', 'PCLOSE'))
-            first = None
-            if c_eof and (not s_eof or c_eof[0] < s_eof[0]) and not ev(cv.conn, ('PRSTSND',)) and not ev(cv.conn, ('SQRD_RST',)):
-                first = 'client'
-            elif s_eof and (not c_eof or s_eof[0] < c_eof[0]) and not ev(sc, ('PRSTSND',)) and not ev(sc, ('SQRD_RST',)):
-                first = 'server'
-            if first == 'client' and not (s_abort and s_abort[0] < (ev(sc, ('PEOF', 'PRST')) or (1 << 62,))[0] and len(server_got) < len(client_sent)):
+            c_end = ev(cv.conn, ('PFIN', 'PCLOSE', 'PRSTSND')); s_end = ev(sc, ('PFIN', 'PCLOSE', 'PRSTSND'))
+            c_got_end = ev(cv.conn, ('PEOF', 'PRST')); s_got_end = ev(sc, ('PEOF', 'PRST'))
+            server_orderly = s_end is not None and s_end[2] in ('PFIN', 'PCLOSE') and not ev(sc, ('PRSTSND',))
+            client_orderly = c_end is not None and c_end[2] in ('PFIN', 'PCLOSE') and not ev(cv.conn, ('PRSTSND',))
+            if server_orderly and c_got_end is not None and (c_end is None or c_end[0] > c_got_end[0]) and not cv.client_gave_up:
                 stats['first_closer_full_delivery_checked'] += 1
-                if server_got != client_sent and not ev(sc, ('PRSTSND',)) and not (s_abort and s_abort[0] < c_eof[0]):
-                    V.append(Violation('C06:closer-bytes-lost', 'tunnel %s: client closed first after %d bytes but the server got only %d before its connection was closed' % (port, len(client_sent), len(server_got))))
-            if first == 'server':
+                server_arrived = hist.arrived_at_squid(sc)   # an RST provoked by client data reaching the closed server discards what was still in flight: TCP's loss, not squid's
+                if got_from_server != server_arrived:
+                    # bytes squid had already read from the server and then dropped are one thing; bytes it never read because it tore the tunnel
+                    # down after a failed write towards the (closed) server are another (see known_findings.json)
+                    cls = 'C06:closer-bytes-lost:read-by-squid' if len(got_from_server) < sc.sqrd_app else 'C06:closer-bytes-lost:never-read'
+                    V.append(Violation(cls, 'tunnel %s: the server closed after sending %d bytes that reached the socket of squid and the client stayed open until its EOF, but it received only %d of them; squid had read %d bytes from the server before any failed write to it (end mode %s)' % (port, len(server_arrived), len(got_from_server), sc.sqrd_app, e['end'])))
+            if client_orderly and s_got_end is not None and (s_end is None or s_end[0] > s_got_end[0]):
                 stats['first_closer_full_delivery_checked'] += 1
-                if got_from_server != server_sent and not ev(cv.conn, ('PRSTSND',)) and not (c_abort and c_abort[0] < s_eof[0]) and not cv.client_gave_up:
-                    V.append(Violation('C06:closer-bytes-lost', 'tunnel %s: server closed first after %d bytes but the client got only %d before its connection was closed' % (port, len(server_sent), len(got_from_server))))
+                client_arrived = client_sent[:len(client_sent) - cv.conn.p2s_dropped] if cv.conn.p2s_dropped else client_sent
+                if server_got != client_arrived:
+                    cls = 'C06:closer-bytes-lost:read-by-squid' if len(server_got) < cv.conn.sqrd_app - head_len else 'C06:closer-bytes-lost:never-read'
+                    V.append(Violation(cls, 'tunnel %s: the client closed after sending %d bytes that reached the socket of squid and the server stayed open until its EOF, but it received only %d of them; squid had read %d tunnel bytes from the client (end mode %s)' % (port, len(client_arrived), len(server_got), cv.conn.sqrd - head_len, e['end'])))
         o.stats = stats
         o.nontrivial = nontrivial > 0
         o.sample = {'knobs': plan['knobs'], 'tunnels': [[t['c']['total'], t['s']['total'], t['end'], t['early']] for t in plan['tunnels']]}
